@@ -7,7 +7,8 @@
 (*   "W" plain word   "M" word with regex metacharacters   "Q" word with a *)
 (*   quote   "N2" short number   "N4" number of >= 4 digits (also zips)    *)
 (*   "H" store number (#123)   "ST" two-letter word (state code)           *)
-(*   "P" processor prefix (first position only: SQ *, TST*, APLPAY ...)    *)
+(*   "P" processor tag (SQ *, TST*, APLPAY ...): a PREFIX in first position *)
+(*       (dropped from the pattern); anywhere else a word like any other   *)
 (*   "S" a stand-alone separator token ("&", "-", "/"): a word like any    *)
 (*       other for the purpose of the pattern                              *)
 (* suggest_pattern keeps a contiguous run of words; the suggestion is then *)
@@ -23,7 +24,7 @@ CONSTANTS Impl, MaxWords
 
 Shapes == {"W", "M", "Q", "N2", "N4", "H", "ST", "P", "S"}
 Descs == UNION {[1..n -> Shapes] : n \in 1..MaxWords}
-WellFormed(d) == \A i \in 2..Len(d) : d[i] # "P"       \* prefixes only in front
+WellFormed(d) == TRUE       \* (a processor tag may occur anywhere: "PAYPAL *SP ALLBIRDS", "CASH APP SQ *JOES")
 
 FirstIdx(d, S, from) == IF \E i \in from..Len(d) : d[i] \in S THEN CHOOSE i \in from..Len(d) : d[i] \in S /\ \A j \in from..(i - 1) : d[j] \notin S
                         ELSE Len(d) + 1
